@@ -1491,6 +1491,9 @@ class Translator:
             if newn in cname: legacy_names.add(cname.replace(newn, oldn))
         for s in self.specs:
             if s.name == cname or s.name in legacy_names: hits.append(s); continue
+            # `@function <C-name prefix>*`: every instantiation whose C name starts with the prefix (e.g. all instantiations of one
+            # generic lambda, whose collision suffix is not stable across header edits)
+            if s.name.endswith('*') and '::' not in s.name and cname.startswith(s.name[:-1]): hits.append(s); continue
             if self._qual_match(s.name, q):
                 if s.sig is None or s.sig in cname:
                     hits.append(s)
